@@ -136,7 +136,10 @@ class C10(PipelineProp):
                 names = [s_["name"] for s_ in autos]
                 for i, nm in enumerate(names):
                     m = re.fullmatch(re.escape(prefix) + r"(\d+)_unloc_(\d+)", nm)
-                    if m and i > 0 and not names[i - 1].startswith(prefix + m.group(1)):
+                    # (only when the chromosome itself is there: if every main piece came out empty -- e.g. it
+                    # covered nothing but a gap -- the unlocs simply take its place in the name order, checked above)
+                    if m and groups[int(m.group(1))]["main"] and (
+                            i == 0 or not re.fullmatch(re.escape(prefix + m.group(1)) + r"(_unloc_\d+)?", names[i - 1])):
                         return f"unloc {nm} does not follow its chromosome: {names}"
                 for s_ in a["scaffolds"]:
                     if s_["rank"] == 2 and not s_["name"].startswith(prefix):
